@@ -77,7 +77,7 @@ def replay(r):
             y = math.log2(py) if py > 0 else float("-inf")
             got = rf.logaddexp2(x, y)
             want = math.log2(px + py) if px + py > 0 else float("-inf")
-            bad = (got != got) or (want == float("-inf") and got != want) or (want != float("-inf") and abs(got - want) > 1e-9)
+            bad = (got != got) or (want == float("-inf") and got != want) or (want != float("-inf") and abs(got - want) > 1e-12 * max(1.0, abs(want)))
             if bad:
                 return True, "logaddexp2(%r, %r) = %r, expected %r" % (x, y, got, want)
         return False, "ok"
@@ -144,6 +144,12 @@ def _p(v):
 
 
 def worker(cfg):
+    if cfg["kind"] == "fimo_history":
+        # the p-value column of fimo() in a call history (same motifs scanned earlier with another eps): the tables of one call
+        # must not be served to another.  Delegated to the fimo() harness of C12 (glue, views="history").
+        from . import C12
+        pw1 = [[0.7, 0.1], [0.1, 0.1], [0.1, 0.7], [0.1, 0.1]]
+        return C12.worker(dict(kind="glue", B=1, L=3, pwms=[pw1], threshold=0.3, views="history"))
     ld, shims = C.fresh_env()
     fimo = ld.load("tools.fimo")
     stats = core.Stats()
@@ -368,7 +374,7 @@ def worker(cfg):
 
 def configs(tier):
     q = tier == "quick"
-    cf = [dict(kind="logaddexp2"), dict(kind="whole_l1", R=2 if q else 3), dict(kind="RET")]
+    cf = [dict(kind="logaddexp2"), dict(kind="whole_l1", R=2 if q else 3), dict(kind="RET"), dict(kind="fimo_history")]
     for l in ((1, 2, 3) if q else (1, 2, 3, 4)):
         cf.append(dict(kind="E", l=l, R=3))
     for K in ((3, 5) if q else (3, 5, 7)):
